@@ -395,6 +395,29 @@ struct RefsWorld : World {
 				check_pending();
 				for (int i = 0; i < 3; ++i) if (before[i] >= 0 && (!alive(i) || obj[i]->refs != before[i]))
 					fail(alive(i) && obj[i]->refs > before[i] ? "never-destroyed" : "destroyed-early", "after a C++ %s went away object %d counts %ld references, %ld before the episode", items ? "item_array" : "reference_array", i, alive(i) ? obj[i]->refs : 0, before[i]);
+				if (!items && (op.c & 16)) {
+					// the same container over a referenced type that is larger than a pointer (the entries are pointers all the same)
+					reference_array<HObj> *rb; { Sut su; rb = new reference_array<HObj>(); }
+					long heldb[3] = {0, 0, 0}; uint32_t y = x;
+					for (int k = 0; k < 6; ++k) {
+						y = y * 1664525u + 1013904223u; int o = (int) ((y >> 20) % 3);
+						if (!alive(o) || model[o] != 1) continue;
+						uintptr_t r; { Sut su; r = obj[o]->addref(); } if (!r) continue;
+						long n = rb->length(); bool ok;
+						if ((y & 0x100) && n) { long pos = (long) ((y >> 9) % (uint32_t) n); HObj *old = rb->begin()[pos].instance(); { Sut su; ok = rb->set(pos, obj[o]); } if (ok && old) { int oi = idx(old); if (oi >= 0) --heldb[oi]; } }
+						else { Sut su; ok = rb->insert(n, obj[o]); }
+						if (!ok) fail("refused-valid", "reference_array over a %zu byte type refused entry %ld without allocation fault", sizeof(HObj), n);
+						++heldb[o];
+						for (int i = 0; i < 3; ++i) if (before[i] >= 0 && alive(i) && obj[i]->refs != before[i] + heldb[i])
+							fail("count-mismatch", "object %d counts %ld references, %ld expected while a reference_array over a %zu byte type holds %ld", i, obj[i]->refs, before[i] + heldb[i], sizeof(HObj), heldb[i]);
+						check_pending();
+					}
+					{ Sut su; delete rb; }
+					check_pending();
+					for (int i = 0; i < 3; ++i) if (before[i] >= 0 && (!alive(i) || obj[i]->refs != before[i]))
+						fail(alive(i) && obj[i]->refs > before[i] ? "never-destroyed" : "destroyed-early", "after a reference_array over a %zu byte type went away object %d counts %ld references, %ld before", sizeof(HObj), i, alive(i) ? obj[i]->refs : 0, before[i]);
+					st.hit("probe:reference_array_of_large_type");
+				}
 				log.ev("%s episode", OPS[op.kind]);
 				outcome = 1;
 				break;
